@@ -5,11 +5,14 @@ import (
 	"fmt"
 	"os"
 	"os/exec"
+	"reflect"
 	"regexp"
 	"sort"
 	"strings"
 	"time"
+	"unsafe"
 
+	"github.com/coregx/ahocorasick"
 	"github.com/coregx/coregex/literal"
 	"github.com/coregx/coregex/prefilter"
 )
@@ -258,6 +261,60 @@ func c16Body(r *Report, known []Finding) {
 				}
 			}
 		}
+		// the Aho-Corasick prefilter against its Lean model (Cx.MetaFind2.ahoPrefilterFind, proved to return the least start of an
+		// occurrence — C16_ahoCorasick_prefilter_never_skips — GIVEN what the automaton of the dependency does: it reports the occurrence
+		// that ends first): the automaton's real Find / FindAt answers are the oracle tables, nested / maxLen are read from the object
+		for _, im := range impls {
+			acp, ok := im.pf.(*prefilter.AhoCorasickPrefilter)
+			if !ok {
+				continue
+			}
+			v := reflect.ValueOf(acp).Elem()
+			fac, fn, fm := v.FieldByName("ac"), v.FieldByName("nested"), v.FieldByName("maxLen")
+			if !fac.IsValid() || !fn.IsValid() || !fm.IsValid() {
+				r.Violate("prefilter.AhoCorasickPrefilter no longer has the fields the model is parameterised by (ac, nested, maxLen)",
+					map[string]any{"correspondence": "Cx.MetaFind2.ahoPrefilterFind vs prefilter/ahocorasick.go"}, true)
+				break
+			}
+			auto := *(**ahocorasick.Automaton)(unsafe.Pointer(fac.UnsafeAddr()))
+			nested, maxLen := fn.Bool(), int(fm.Int())
+			var hexLits []string
+			for _, l := range lits {
+				hexLits = append(hexLits, hexOf(l))
+			}
+			lean = append(lean, lc{req: "metafind2 lits nested 0 - " + strings.Join(hexLits, ","), got: map[bool]string{true: "1", false: "0"}[nested], desc: fmt.Sprintf("hasNestedLiteral of %q", lits)},
+				lc{req: "metafind2 lits maxlen 0 - " + strings.Join(hexLits, ","), got: fmt.Sprint(maxLen), desc: fmt.Sprintf("litMaxLen of %q", lits)})
+			var ah [][]byte
+			for k := 0; k < 8; k++ {
+				a, b := lits[rng.Intn(len(lits))], lits[rng.Intn(len(lits))]
+				ah = append(ah, append(append(append([]byte("x"), a...), b[len(b)/2:]...), a...), append(append([]byte(nil), b[:len(b)/2]...), a...))
+			}
+			for _, h := range ah {
+				if len(h) > 40 {
+					h = h[:40]
+				}
+				var ft, fat, want []string
+				for a := 0; a <= len(h); a++ {
+					if m, ok := auto.Find(h, a); ok {
+						ft = append(ft, fmt.Sprintf("%d.%d", m.Start, m.End))
+					} else {
+						ft = append(ft, "x")
+					}
+					if m, ok := auto.FindAt(h, a); ok {
+						fat = append(fat, fmt.Sprintf("%d.%d", m.Start, m.End))
+					} else {
+						fat = append(fat, "x")
+					}
+					if p := acp.Find(h, a); p >= 0 {
+						want = append(want, fmt.Sprint(p))
+					} else {
+						want = append(want, "x")
+					}
+				}
+				lean = append(lean, lc{req: fmt.Sprintf("metafind2 acpf %d,%d %s %s %s", map[bool]int{true: 1, false: 0}[nested], maxLen, hexOf(h), strings.Join(ft, ","), strings.Join(fat, ",")),
+					got: strings.Join(want, ";"), desc: fmt.Sprintf("AhoCorasickPrefilter.Find from every offset of %q (nested=%v, maxLen=%d)", h, nested, maxLen)})
+			}
+		}
 		for _, h := range hays {
 			starts := []int{0, 1, len(h) / 2, len(h) - 1, len(h)}
 			for _, st := range starts {
@@ -364,11 +421,16 @@ func c16Body(r *Report, known []Finding) {
 		return
 	}
 	t := r.Tie("Lean slim-Teddy model (fingerprint length as built) == prefilter.Teddy.Find")
+	ta := r.Tie("Lean Aho-Corasick prefilter model (Cx.MetaFind2.ahoPrefilterFind, hasNestedLiteral, litMaxLen) == prefilter.AhoCorasickPrefilter")
 	for i, c := range lean {
-		t.Cases++
+		tt, what := t, "Teddy.Find"
+		if strings.HasPrefix(c.req, "metafind2 ") {
+			tt, what = ta, "AhoCorasickPrefilter"
+		}
+		tt.Cases++
 		if ans[i] != c.got {
-			t.Disagreements++
-			r.Violate(fmt.Sprintf("Teddy.Find vs Lean model: %s implementation=%s model=%s", c.desc, c.got, ans[i]), map[string]any{"request": c.req, "implementation": c.got, "model": ans[i]}, false)
+			tt.Disagreements++
+			r.Violate(fmt.Sprintf("%s vs Lean model: %s implementation=%s model=%s", what, c.desc, c.got, ans[i]), map[string]any{"request": c.req, "implementation": c.got, "model": ans[i]}, false)
 		}
 	}
 	if len(lean) > 0 {
